@@ -765,7 +765,8 @@ func Variants() []Variant {
 func Parts() []mc.Part {
 	var ps []mc.Part
 	for _, v := range Variants() {
-		ps = append(ps, mc.ExplorePart(v.Name, New(v), depthQuick, depthThorough, false, rule))
+		ps = append(ps, mc.ExplorePartC(v.Name, New(v), depthQuick, depthThorough, false, rule,
+			&mc.ConfOpts{Stores: []string{"nft"}, SkipDenoms: map[string]bool{"stake": true}, MaxPaths: 100}))
 	}
 	return ps
 }
